@@ -25,7 +25,7 @@ CLAIM = dict(
           'Laplacian eigenvalues are zeroed at l = 0 and on the padding) and the numpy inverse is taken only behind the Tracer guard; the checkpointed sub-scan '
           'captures only non-traced objects and passes exactly (carry, slice). Also decided: no data-dependent branching primitive (lax.cond / switch / while_loop with a predicate computed from the state) sits on a data path — only the taken branch is differentiated. Does not decide agreement of JVP with finite differences, JVP/VJP adjointness '
           '(a property of jax itself for traceable code) or finiteness at every state numerically.'
-          ' Later additions: C08.4 every jax.custom_jvp / custom_vjp rule in the package passes on the tangent (cotangent) of each differentiable argument (AST data-flow over the rule, positive fixture); relu-type activations on data paths are hazards (one-sided derivative 0 at the kink where the central difference of the piecewise-linear function is ½); lax.cond / switch / while_loop on data-dependent predicates.'),
+          ' Later additions: C08.4 every jax.custom_jvp / custom_vjp rule in the package passes on the tangent (cotangent) of each differentiable argument (AST data-flow over the rule, positive fixture); relu-type activations on data paths are hazards (one-sided derivative 0 at the kink where the central difference of the piecewise-linear function is ½); lax.cond / switch / while_loop on data-dependent predicates. Hand-written rules are verified: a JVP must be jax.jvp of the implementation, a VJP of a linear map is decided by a transpose calculus over operator words; otherwise the check ends with no verdict.'),
     note=('jax primitives used on data paths are differentiable with finite derivatives at admissible inputs; allow-table entries (with reasons) are in rules/c08.py. '
           'A cross-reference list of `where(c, a/b, …)` patterns is printed as NOTE only.'),
     technique='taint analysis (state → result) over inlined call trees with a hazard-operation table + closure-capture analysis + shared structural rules (C02.2, C03.7)',
